@@ -68,3 +68,11 @@ claim("C07",
       "Trusted: CPython, CrossHair, z3, reference object semantics of a genuine union/product; stub classes/strategies. Whole "
       "specifications (objects of real universes) are exercised under C01's end-to-end group.",
       "CrossHair symbolic execution (pattern T: symbolic object-list lengths) + z3", "DESIGN.md 2/C07")
+claim("C11",
+      "Bounded symbolic execution of the real ForestRuleExtractor (and the TableMethod it re-runs) behind a stub rule database: "
+      "for every ordered rule list of the catalogue every shift and every bucket is a solver variable; whenever the root pumps the "
+      "extracted keys are compared with the reference least fixed point (subset, productive, one rule per class, closed, 1-minimal, "
+      "reverse only if unavoidable). Exhaustive inside the bound; turning keys back into rules is checked on real searches in the "
+      "end-to-end group.",
+      "Trusted: CPython, CrossHair path bookkeeping (+tally cross-check), z3, reference least fixed point (validated in C03).",
+      "CrossHair symbolic execution (pattern D: solver-enumerated shifts/buckets per shape) + z3", "DESIGN.md 2/C11")
